@@ -203,5 +203,8 @@ def plan_for(pid, tier, seed):
                     special=special,
                     assumptions=["TLC and the Json/IOUtils community modules",
                                  "the harness's recording global allocator (deterministic address map)",
-                                 "small-scope hypothesis for the exhaustive model runs"])
+                                 "small-scope hypothesis for the exhaustive model runs",
+                                 "API-level traces: the crate's cfg(bumpalo_verif) hooks report every public arena operation (all allocation flavours "
+                                 "funnel through try_alloc_layout) and every call into the global allocator; per arena a prefix is validated",
+                                 "Apalache + Z3 for the unbounded FastPathInd obligations (C01, C04)"])
     return None
